@@ -224,15 +224,40 @@ impl<T: Types> RaftLog<T> {
         let mut prev_end_offset = None;
         let mut last_log_id = None;
 
-        for chunk_id in chunk_ids.iter().copied() {
+        for (i, chunk_id) in chunk_ids.iter().copied().enumerate() {
+            let (chunk, records) = Chunk::open(config.clone(), chunk_id)?;
+
+            if records.is_empty() {
+                // Not even the initial State record is complete: the process
+                // stopped while this chunk file was being created. Nothing
+                // can be stored after an incomplete first record, so the
+                // newest chunk in this condition is discarded and a new open
+                // chunk is created below. Anywhere else it is a damage.
+                if i + 1 < chunk_ids.len() {
+                    return Err(io::Error::new(
+                        io::ErrorKind::InvalidData,
+                        format!(
+                            "{} contains no complete record but is not the last chunk",
+                            chunk_id
+                        ),
+                    ));
+                }
+
+                info!(
+                    "Remove the last chunk without a complete record: {}",
+                    chunk_id
+                );
+                drop(chunk);
+                std::fs::remove_file(config.chunk_path(chunk_id))?;
+                break;
+            }
+
             // Only the last chunk(open chunk) needs to keep all log payload in
             // cache. Therefore, payloads in previous chunks are marked as
             // evictable.
             sm.payload_cache.write().unwrap().set_last_evictable(last_log_id);
 
             Self::ensure_consecutive_chunks(prev_end_offset, chunk_id)?;
-
-            let (chunk, records) = Chunk::open(config.clone(), chunk_id)?;
 
             for (i, record) in records.into_iter().enumerate() {
                 let start = chunk.global_offsets[i];
